@@ -211,7 +211,7 @@ func class(t typ, x *big.Int) string {
 var (
 	ncalls   int
 	shapes   = map[string]int{}
-	failures = map[string]int{} // expected-failure / expected-success counts per op
+	reported = map[string]bool{}
 )
 
 // judge compares one real call with the expectation that came from TLC.
@@ -246,6 +246,11 @@ func judge(origin, op string, t typ, a, b *big.Int, expOK bool, expV *big.Int) {
 	if kind == "" {
 		return
 	}
+	vkey := op + t.name + a.String() + "," + b.String()
+	if reported[vkey] {
+		return
+	}
+	reported[vkey] = true
 	tyname := map[string]string{"i32": "int32", "i64": "int64", "u32": "uint32", "u64": "uint64"}[t.name]
 	sig := fmt.Sprintf("%s:%s:%s:a=%s:b=%s", op, tyname, kind, class(t, a), bc)
 	exp := "failure"
@@ -368,14 +373,20 @@ func specials(t typ, all bool) []*big.Int {
 			out = append(out, x)
 		}
 	}
-	for _, x := range bigs(0, 1, 2, 3, -1, -2, -3) {
+	for _, x := range bigs(0, 1, 2, -1, -2) {
 		put(x)
 	}
-	for d := int64(0); d < 3; d++ {
+	if all {
+		put(big.NewInt(3))
+		put(big.NewInt(-3))
+		put(add(t.lo, 2))
+		put(add(t.hi, -2))
+	}
+	for d := int64(0); d < 2; d++ {
 		put(add(t.lo, d))
 		put(add(t.hi, -d))
 	}
-	ks := []uint{t.w/2 - 1, t.w / 2, t.w/2 + 1, t.w - 2, t.w - 1}
+	ks := []uint{t.w / 2, t.w - 1}
 	if all {
 		ks = nil
 		for k := uint(2); k <= t.w; k++ {
@@ -385,6 +396,9 @@ func specials(t typ, all bool) []*big.Int {
 	for _, k := range ks {
 		p := new(big.Int).Lsh(big.NewInt(1), k)
 		for d := int64(-1); d <= 1; d++ {
+			if !all && d != 0 && k != t.w-1 {
+				continue
+			}
 			put(add(p, d))
 			put(new(big.Int).Neg(add(p, d)))
 		}
@@ -419,6 +433,7 @@ func gen(path string) {
 	}
 	w := bufio.NewWriter(f)
 	n := 0
+	dup := map[string]bool{}
 	emit := func(op string, t typ, a, b *big.Int) {
 		if !t.in(a) || !t.in(b) {
 			return
@@ -426,6 +441,11 @@ func gen(path string) {
 		if op == "neg" {
 			b = new(big.Int)
 		}
+		key := op + t.name + a.String() + "," + b.String()
+		if dup[key] {
+			return
+		}
+		dup[key] = true
 		n++
 		k := kase{I: n, Op: op, Ty: t.name, A: toLimbs(a), B: toLimbs(b), As: a.String(), Bs: b.String()}
 		bs, _ := json.Marshal(k)
@@ -513,6 +533,7 @@ func gen(path string) {
 
 type expect struct {
 	I  int     `json:"i"`
+	WF bool    `json:"wf"`
 	OK bool    `json:"ok"`
 	V  limbInt `json:"v"`
 }
@@ -533,25 +554,30 @@ func cmp(casesPath, tlcOut string) {
 	nexp := 0
 	samples := 0
 	if _, err := vh.EachExport(tlcOut, func(_ int, doc []byte) error {
-		var e expect
-		if err := json.Unmarshal(doc, &e); err != nil {
+		var batch []expect
+		if err := json.Unmarshal(doc, &batch); err != nil {
 			return err
 		}
-		if e.I < 1 || e.I > len(cases) || seen[e.I] {
-			return fmt.Errorf("unexpected expectation index %d", e.I)
-		}
-		seen[e.I] = true
-		nexp++
-		k := cases[e.I-1]
-		t := typByName(k.Ty)
-		a, b := fromLimbs(k.A), fromLimbs(k.B)
-		if a.String() != k.As || b.String() != k.Bs {
-			return fmt.Errorf("case %d: limb form does not match decimal form", k.I)
-		}
-		judge("recorded operands", k.Op, t, a, b, e.OK, fromLimbs(e.V))
-		if samples < 4 && e.I%997 == 3 {
-			samples++
-			vh.Sample(map[string]interface{}{"op": k.Op, "type": k.Ty, "a": k.As, "b": k.Bs, "tlc_ok": e.OK, "tlc_value": fromLimbs(e.V).String()})
+		for _, e := range batch {
+			if e.I < 1 || e.I > len(cases) || seen[e.I] {
+				return fmt.Errorf("unexpected expectation index %d", e.I)
+			}
+			if !e.WF {
+				return fmt.Errorf("case %d: TLC reports malformed limb operands", e.I)
+			}
+			seen[e.I] = true
+			nexp++
+			k := cases[e.I-1]
+			t := typByName(k.Ty)
+			a, b := fromLimbs(k.A), fromLimbs(k.B)
+			if a.String() != k.As || b.String() != k.Bs {
+				return fmt.Errorf("case %d: limb form does not match decimal form", k.I)
+			}
+			judge("recorded operands", k.Op, t, a, b, e.OK, fromLimbs(e.V))
+			if samples < 4 && e.I%997 == 3 {
+				samples++
+				vh.Sample(map[string]interface{}{"op": k.Op, "type": k.Ty, "a": k.As, "b": k.Bs, "tlc_ok": e.OK, "tlc_value": fromLimbs(e.V).String()})
+			}
 		}
 		return nil
 	}); err != nil {
@@ -587,6 +613,19 @@ func main() {
 			vh.Fatal("usage: c31 cmp <cases> <tlc.out>")
 		}
 		cmp(os.Args[2], os.Args[3])
+	case "one": // c31 one <op> <type> <a> <b> <want_ok> <want>: re-execute one saved case
+		if len(os.Args) < 8 {
+			vh.Fatal("usage: c31 one <op> <type> <a> <b> <want_ok> <want>")
+		}
+		tn := map[string]string{"int32": "i32", "int64": "i64", "uint32": "u32", "uint64": "u64"}[os.Args[3]]
+		a, ok1 := new(big.Int).SetString(os.Args[4], 10)
+		b, ok2 := new(big.Int).SetString(os.Args[5], 10)
+		w, ok3 := new(big.Int).SetString(os.Args[7], 10)
+		if tn == "" || !ok1 || !ok2 || !ok3 {
+			vh.Fatal("bad replay arguments")
+		}
+		judge("replay", os.Args[2], typByName(tn), a, b, os.Args[6] == "true", w)
+		vh.Summary(map[string]interface{}{"calls": ncalls})
 	default:
 		vh.Fatal("unknown sub-command %s", os.Args[1])
 	}
